@@ -45,6 +45,8 @@ structure RoundFacts where
   identical : Bool          -- every node computed the same bytes
   reports : Nat
   quorum : List Bool        -- ObservationQuorum for 0, 1, …, n observations
+  again : List Bool := []   -- Outcome / Reports evaluated once more on an instance that had evaluated them on the same
+                            -- inputs: the same bytes came back (the functions are pure: `outcome_reevaluated`)
 
 def quorumTableOk (f : Nat) (tbl : List Bool) : Bool :=
   (tbl.zipIdx).all (fun (b, k) => b == observationQuorum f k)
@@ -54,7 +56,8 @@ def roundOk (ctx : Ctx) (lim : Limits) (adv : Advertised) (f : Nat) (rf : RoundF
   decide (rf.outcomeLen ≤ adv.maxOutcomeLength) &&
   rf.nextDecodes && rf.identical &&
   decide (rf.reports ≤ adv.maxReportCount) &&
-  quorumTableOk f rf.quorum
+  quorumTableOk f rf.quorum &&
+  rf.again.all id
 
 def explainRound (ctx : Ctx) (lim : Limits) (adv : Advertised) (f : Nat) (rf : RoundFacts) : String :=
   if !validOutcome ctx lim rf.outcome then "an outcome computed from validated observations and a valid previous outcome violates a validation rule"
@@ -63,6 +66,7 @@ def explainRound (ctx : Ctx) (lim : Limits) (adv : Advertised) (f : Nat) (rf : R
   else if !rf.identical then "nodes computed different outcome bytes from the same inputs"
   else if !decide (rf.reports ≤ adv.maxReportCount) then "more reports than the advertised MaxReportCount"
   else if !quorumTableOk f rf.quorum then "ObservationQuorum is not (number of observations >= 2f+1)"
+  else if !rf.again.all id then "an instance that evaluates Outcome / Reports again on the same inputs emits something else"
   else "ok"
 
 /-! ### notions the theorems of Props/C03 are stated with -/
@@ -91,5 +95,14 @@ def chain (ctx : Ctx) (lim : Limits) : Outcome → List RoundIn → List Outcome
   | prev, r :: rs =>
     let o := outcome ctx lim prev r.obs r.πres r.πblk
     o :: chain ctx lim o rs
+
+/-- rounds as libocr runs them: a round that does not commit (`commits = false`: leader change, timeout, lost messages)
+leaves the previous outcome in place — the next round is computed on the SAME previous outcome, which every node has
+decoded and worked on before.  The list holds the outcome of every round, committed or not. -/
+def runs (ctx : Ctx) (lim : Limits) : Outcome → List (RoundIn × Bool) → List Outcome
+  | _, [] => []
+  | prev, (r, commits) :: rs =>
+    let o := outcome ctx lim prev r.obs r.πres r.πblk
+    o :: runs ctx lim (if commits then o else prev) rs
 
 end AutoVerif.C03
